@@ -368,14 +368,10 @@ fn update_shape(k: u8) {
     m.insert(0, 10);
     m.insert(1, 11);
     m.insert(2, 12);
-    if kani::any() {
-        ins(&mut t, &mut m);
-    } else {
-        rem(&mut t, &mut m);
-    }
+    rem(&mut t, &mut m);
     q_shape(&t, &m);
     kani::cover!(m.len() == 2, "a key was removed");
-    kani::cover!(m.len() == 4, "a new key was inserted");
+    kani::cover!(m.len() == 3, "an absent key was asked for");
     std::mem::forget(t);
 }
 /// one query on every 3-node shape
@@ -393,26 +389,29 @@ fn query_shape(k: u8) {
         1 => assert!(t.next(&q).map(|(a, b)| (*a, *b)) == m.next(q), "next agrees with the reference map"),
         _ => assert!(t.prev(&q).map(|(a, b)| (*a, *b)) == m.prev(q), "prev agrees with the reference map"),
     }
-    q_shape(&t, &m);
+    assert!(t.len() == 3 && t.min() == Some(&0) && t.max() == Some(&2), "queries leave the contents intact");
     kani::cover!(q == 3, "absent key queried");
     std::mem::forget(t);
 }
 macro_rules! shape3_h {
     ($name:ident, $f:ident, $k:expr) => {
+        shape3_h!($name, $f, $k, 5);
+    };
+    ($name:ident, $f:ident, $k:expr, $u:expr) => {
         #[kani::proof]
-        #[kani::unwind(5)]
+        #[kani::unwind($u)]
         fn $name() {
             $f($k)
         }
     };
 }
-shape3_h!(sp_update3_left_chain, update_shape, 0);
-shape3_h!(sp_update3_right_chain, update_shape, 1);
-shape3_h!(sp_update3_zigzag_lr, update_shape, 2);
-shape3_h!(sp_update3_zigzag_rl, update_shape, 3);
-shape3_h!(sp_update3_balanced, update_shape, 4);
-shape3_h!(sp_query3_left_chain, query_shape, 0);
-shape3_h!(sp_query3_right_chain, query_shape, 1);
-shape3_h!(sp_query3_zigzag_lr, query_shape, 2);
-shape3_h!(sp_query3_zigzag_rl, query_shape, 3);
-shape3_h!(sp_query3_balanced, query_shape, 4);
+shape3_h!(sp_remove3_left_chain, update_shape, 0, 4);
+shape3_h!(sp_remove3_right_chain, update_shape, 1, 4);
+shape3_h!(sp_remove3_zigzag_lr, update_shape, 2, 4);
+shape3_h!(sp_remove3_zigzag_rl, update_shape, 3, 4);
+shape3_h!(sp_remove3_balanced, update_shape, 4, 4);
+shape3_h!(sp_query3_left_chain, query_shape, 0, 4);
+shape3_h!(sp_query3_right_chain, query_shape, 1, 4);
+shape3_h!(sp_query3_zigzag_lr, query_shape, 2, 4);
+shape3_h!(sp_query3_zigzag_rl, query_shape, 3, 4);
+shape3_h!(sp_query3_balanced, query_shape, 4, 4);
